@@ -288,3 +288,53 @@ def same_value(a, b):
         return vkey(a) == vkey(b) and not isinstance(a, (Obj, Arr))
     except Exception:
         return False
+
+
+def slice_loops(it, unit, relevant_callees):
+    """Loops whose body contains no call of interest (resolved callee in relevant_callees, or an
+    indirect call) and no store to a file-scope variable contribute nothing to the event
+    sequence of a path: run them for zero generic iterations instead of forking on them.
+    Loops with concrete conditions are unaffected."""
+    cache = {}
+
+    def relevant(s):
+        r = cache.get(s.id)
+        if r is not None:
+            return r
+        r = False
+        for n in s.walk():
+            if n.kind == 'CallExpr':
+                c = n.callee()
+                if c is None or c in relevant_callees:
+                    r = True; break
+            elif n.kind in ('BinaryOperator', 'CompoundAssignOperator', 'UnaryOperator') and \
+                    (n.kind == 'CompoundAssignOperator' or n.opcode in ('=', '++', '--')):
+                b = n.inner[0].strip()
+                while b.kind in ('MemberExpr', 'ArraySubscriptExpr') and b.inner:
+                    b = b.inner[0].strip()
+                if b.kind == 'DeclRefExpr' and b.ref_kind == 'VarDecl' and b.ref_name in unit.globals and unit.globals[b.ref_name].id == b.ref_id:
+                    r = True; break
+            elif n.kind == 'ReturnStmt':
+                r = True; break
+        cache[s.id] = r
+        return r
+    orig_loop, orig_do, base = it.exec_loop, it.exec_do, it.loop_limit
+
+    def exec_loop(s, a, cond, inc, body, env):
+        old = it.loop_limit
+        it.loop_limit = base if relevant(s) else 0
+        try:
+            return orig_loop(s, a, cond, inc, body, env)
+        finally:
+            it.loop_limit = old
+
+    def exec_do(s, env):
+        old = it.loop_limit
+        it.loop_limit = base if relevant(s) else 0
+        try:
+            return orig_do(s, env)
+        finally:
+            it.loop_limit = old
+    it.exec_loop = exec_loop
+    it.exec_do = exec_do
+    return it
